@@ -112,7 +112,8 @@ def r05_2(chk, drv, site, tag):
                     hops += 1
                 if isinstance(st, ast.Assign) and isinstance(st.value, ast.Call) and callee_name(st.value) == 'remove_null_cols':
                     reds.append((d, st))
-    vec = site['targets'].strip('()').split(',')[1] if site['targets'] else None
+    parts_ = site['targets'].strip('()').split(',') if site['targets'] else []
+    vec = parts_[1] if len(parts_) > 1 else None
     if not reds:
         # unreduced call: the vectors must be used as returned
         chk.ob('R05.2', vec == 'eigvecs', rel, fname, tag + ' unreduced vectors used directly', line=site['line'], got=vec)
@@ -148,7 +149,7 @@ def r05_2(chk, drv, site, tag):
         # the scattered array is the solver's vector output, possibly through aliases / column slices (peigvecs = eigvecs[:, :n])
         sv = scat[0].value
         hops = 0
-        while hops < 4 and not (src == vec or src.startswith(vec + '[')):
+        while vec is not None and hops < 4 and not (src == vec or src.startswith(vec + '[')):
             base = sv.value if isinstance(sv, ast.Subscript) else sv
             if not isinstance(base, ast.Name):
                 break
@@ -158,7 +159,7 @@ def r05_2(chk, drv, site, tag):
             sv = cfg.nodes[rd_[0]].value
             src = norm(sv)
             hops += 1
-        ok = ok and (src == vec or src.startswith(vec + '['))
+        ok = ok and vec is not None and (src == vec or src.startswith(vec + '['))
         shape = alloc[0].value.args[0]
         if isinstance(shape, ast.Tuple) and len(shape.elts) == 2:
             rows = shape.elts[0]
